@@ -204,6 +204,8 @@ pub struct WalkEntry {
     follow: Follow,
     /// Cached metadata.
     meta: OnceCell<Result<Metadata, WalkError>>,
+    /// The starting point this entry was found under, exactly as given.
+    starting_point: Option<PathBuf>,
 }
 
 impl WalkEntry {
@@ -213,7 +215,20 @@ impl WalkEntry {
             inner: Entry::Explicit(path.into(), depth),
             follow,
             meta: OnceCell::new(),
+            starting_point: None,
         }
+    }
+
+    /// Record the starting point (as spelled on the command line) this entry belongs to.
+    #[must_use]
+    pub fn with_starting_point(mut self, starting_point: impl Into<PathBuf>) -> Self {
+        self.starting_point = Some(starting_point.into());
+        self
+    }
+
+    /// Get the starting point this entry was found under, if it was recorded.
+    pub fn starting_point(&self) -> Option<&Path> {
+        self.starting_point.as_deref()
     }
 
     /// Convert a [walkdir::DirEntry] to a [WalkEntry].  Errors due to broken symbolic links will be
@@ -234,6 +249,7 @@ impl WalkEntry {
                         inner: Entry::WalkDir(entry),
                         follow,
                         meta: OnceCell::new(),
+                        starting_point: None,
                     }
                 };
                 Ok(ret)
@@ -246,6 +262,7 @@ impl WalkEntry {
                             inner: Entry::Explicit(path.into(), depth),
                             follow: Follow::Never,
                             meta: Ok(meta).into(),
+                            starting_point: None,
                         });
                     }
                 }
